@@ -76,8 +76,8 @@ theorem split_last_star (t : Text) (hl : t.getLast? = some starC) (hi : t.idxOf 
   rw [hi, hp] at hlt
   simp at hlt
 
-theorem wildNormalize_sat (env : Env) (f : Field) (t : Text) (b : Rat) (c : Bool) (d : Doc)
-    (hp : d.Plain) : sat env (wildNormalize f t b c) d = sat env (.wild f t b c) d := by
+theorem wildNormalize_sat (env : Env) (f : Field) (t : Text) (b : Rat) (c : Bool) (d : Doc) :
+    sat env (wildNormalize f t b c) d = sat env (.wild f t b c) d := by
   unfold wildNormalize
   split
   · rename_i h
@@ -93,21 +93,11 @@ theorem wildNormalize_sat (env : Env) (f : Field) (t : Text) (b : Rat) (c : Bool
       · rename_i hpl
         simp only [Bool.and_eq_true, Bool.not_eq_true'] at hpl
         simp only [sat, hstar', ↓reduceIte, parseGlob_plain env.bracket t hpl.1 hpl.2 hbr', gmatch_lits]
-        by_cases ht : t = []
-        · subst ht
-          have hno : ∀ x ∈ d.toks f, x ≠ [] := fun x hx => (hp f x hx).1
-          rw [Bool.eq_iff_iff]
-          simp only [List.contains_eq_mem, List.any_eq_true, Bool.and_eq_true, bne_iff_ne, ne_eq,
-            beq_iff_eq, decide_eq_true_eq]
-          constructor
-          · intro hm; exact absurd rfl (hno [] hm)
-          · rintro ⟨x, _, hx1, hx2⟩; exact absurd hx2 hx1
-        · rw [Bool.eq_iff_iff]
-          simp only [List.contains_eq_mem, List.any_eq_true, Bool.and_eq_true, bne_iff_ne, ne_eq,
-            beq_iff_eq, decide_eq_true_eq]
-          constructor
-          · intro hm; exact ⟨t, hm, ht, rfl⟩
-          · rintro ⟨x, hx, _, rfl⟩; exact hx
+        rw [Bool.eq_iff_iff]
+        simp only [List.contains_eq_mem, List.any_eq_true, beq_iff_eq, decide_eq_true_eq]
+        constructor
+        · intro hm; exact ⟨t, hm, rfl⟩
+        · rintro ⟨x, hx, rfl⟩; exact hx
       · split
         · rename_i hpre
           simp only [Bool.and_eq_true, Bool.not_eq_true', beq_iff_eq] at hpre
@@ -164,45 +154,83 @@ theorem pt_lt_iff (x y : Text) : pt x ≤ pt y ↔ x ≤ y := by
     · exact Or.inl h
     · exact Or.inr h
 
-theorem rngNormalize_sat (env : Env) (r : Rng) (d : Doc) (hp : d.Plain) :
+/-- The quirk of `TermRange._btexts` never fires on `r` and `d` (`ROk`). -/
+theorem inRangeQ_of_ROk {d : Doc} {r : Rng} (he : ROk d r) {x : Text} (hx : x ∈ d.toks r.f) :
+    inRangeQ r.lo r.hi r.lox r.hix x = inRange r.lo r.hi r.lox r.hix x := by
+  unfold inRangeQ
+  rcases he with he | he
+  · have : (r.lo == none && r.lox) = false := by
+      unfold Rng.openExcl at he
+      cases hl : r.lox <;> cases hlo : r.lo <;> simp_all
+    rw [show (r.lo == none && r.lox && x == []) = false by rw [this]; rfl]
+    simp
+  · have : (x == []) = false := by simpa using he r.f x hx
+    simp [this]
+
+theorem any_congr_mem {α} (l : List α) (p q : α → Bool) (h : ∀ x ∈ l, p x = q x) : l.any p = l.any q := by
+  induction l with
+  | nil => rfl
+  | cons a as ih =>
+    simp only [List.any_cons, h a (List.mem_cons_self ..), ih (fun x hx => h x (List.mem_cons_of_mem _ hx))]
+
+/-- Meaning of a range clause on a document for which the empty term is harmless: some term of the
+    field lies in the interval. -/
+theorem sat_range_ROk (env : Env) (r : Rng) (d : Doc) (he : ROk d r) :
+    sat env r.toQ d = (d.toks r.f).any fun x => inRange r.lo r.hi r.lox r.hix x := by
+  simp only [Rng.toQ, sat]
+  exact any_congr_mem _ _ _ fun x hx => inRangeQ_of_ROk he hx
+
+theorem rngNormalize_sat (env : Env) (r : Rng) (d : Doc) (hp : d.BelowMax) (he : ROk d r) :
     sat env r.normalize d = sat env r.toQ d := by
-  unfold Rng.normalize Rng.toQ
+  have hq := sat_range_ROk env r d he
+  unfold Rng.normalize
   split
   · -- the whole field
     rename_i h
     simp only [Bool.and_eq_true, Bool.or_eq_true, beq_iff_eq] at h
     obtain ⟨hlo, hhi⟩ := h
+    rw [hq]
     simp only [sat, hasField]
     rw [Bool.eq_iff_iff]
-    simp only [Bool.not_eq_true', List.isEmpty_eq_false_iff, ne_eq, List.any_eq_true, Bool.and_eq_true,
-      bne_iff_ne, inRange_iff]
+    simp only [Bool.not_eq_true', List.isEmpty_eq_false_iff, ne_eq, List.any_eq_true, inRange_iff]
     constructor
     · intro hne
       cases htk : d.toks r.f with
       | nil => exact absurd htk hne
       | cons x xs =>
-        have hx := hp r.f x (by simp [htk])
-        refine ⟨x, by simp, hx.1, ?_, ?_⟩
-        · rcases hlo with hlo | hlo <;> rw [hlo]
-          · show Cmp.le _ _ = true; simp [cmpStart, pt, Cmp.le, Bnd.lt]
-          · cases r.lox
-            · show Cmp.le _ _ = true
+        have hxm : x ∈ d.toks r.f := by simp [htk]
+        have hxb := hp r.f x hxm
+        refine ⟨x, by simp, ?_, ?_⟩
+        · rcases hlo with hlo | hlo
+          · rw [hlo]; show Cmp.le _ _ = true; simp [cmpStart, pt, Cmp.le, Bnd.lt]
+          · -- lo = "": fine unless the start is exclusive and x is the empty term
+            have hcase : r.lox = false ∨ x ≠ [] := by
+              rcases he with he | he
+              · left
+                unfold Rng.openExcl at he
+                cases hl : r.lox
+                · rfl
+                · simp [hl, hlo] at he
+              · right; exact he r.f x hxm
+            rw [hlo]
+            show Cmp.le _ _ = true
+            rcases hcase with hl | hx0
+            · rw [hl]
               simp only [cmpStart, pt, Cmp.le, Bnd.lt, Bool.false_eq_true, ↓reduceIte, Int.le_refl,
                 decide_true, Bool.and_true, Bool.or_eq_true, decide_eq_true_eq, beq_iff_eq, Bnd.val.injEq]
               cases x with
-              | nil => exact absurd rfl hx.1
+              | nil => right; rfl
               | cons y ys => left; exact List.nil_lt_cons y ys
-            · show Cmp.le _ _ = true
-              simp only [cmpStart, pt, Cmp.le, Bnd.lt, ↓reduceIte, Bool.or_eq_true, decide_eq_true_eq,
+            · simp only [cmpStart, pt, Cmp.le, Bnd.lt, Bool.or_eq_true, decide_eq_true_eq,
                 Bool.and_eq_true, beq_iff_eq, Bnd.val.injEq]
               cases x with
-              | nil => exact absurd rfl hx.1
+              | nil => exact absurd rfl hx0
               | cons y ys => left; exact List.nil_lt_cons y ys
         · rcases hhi with hhi | hhi <;> rw [hhi]
           · show Cmp.le _ _ = true; simp [cmpEnd, pt, Cmp.le, Bnd.lt]
           · show Cmp.le _ _ = true
             simp only [cmpEnd, pt, Cmp.le, Bnd.lt, Bool.or_eq_true, decide_eq_true_eq]
-            left; exact hx.2
+            left; exact hxb
     · rintro ⟨x, hx, _⟩ e
       rw [e] at hx; simp at hx
   · split
@@ -212,11 +240,12 @@ theorem rngNormalize_sat (env : Env) (r : Rng) (d : Doc) (hp : d.Plain) :
       split
       · -- exclusive on one side: empty
         rename_i hex
+        rw [hq]
         simp only [sat]
         symm
         rw [Bool.eq_false_iff]
-        simp only [ne_eq, List.any_eq_true, Bool.and_eq_true, bne_iff_ne, inRange_iff, not_exists, not_and]
-        intro x _ _ hs he
+        simp only [ne_eq, List.any_eq_true, inRange_iff, not_exists, not_and]
+        intro x _ hs he
         cases hlo : r.lo with
         | none =>
           rw [hlo] at h2'
@@ -233,6 +262,7 @@ theorem rngNormalize_sat (env : Env) (r : Rng) (d : Doc) (hp : d.Plain) :
           rcases hex with hex | hex <;> simp only [hex, ↓reduceIte] at hs' he' <;> grind
       · rename_i hex
         simp only [Bool.or_eq_true, not_or, Bool.not_eq_true] at hex
+        rw [hq]
         cases hlo : r.lo with
         | none =>
           rw [hlo] at h2'
@@ -241,14 +271,13 @@ theorem rngNormalize_sat (env : Env) (r : Rng) (d : Doc) (hp : d.Plain) :
           rw [hlo] at h2'
           simp only [sat, ← h2', hex.1, hex.2]
           rw [Bool.eq_iff_iff]
-          simp only [List.contains_eq_mem, decide_eq_true_eq, List.any_eq_true, Bool.and_eq_true,
-            bne_iff_ne, ne_eq, inRange_iff]
+          simp only [List.contains_eq_mem, decide_eq_true_eq, List.any_eq_true, inRange_iff]
           constructor
           · intro hm
-            refine ⟨t, hm, (hp r.f t hm).1, ?_, ?_⟩
+            refine ⟨t, hm, ?_, ?_⟩
             · show Cmp.le _ _ = true; simp [cmpStart, pt, Cmp.le]
             · show Cmp.le _ _ = true; simp [cmpEnd, pt, Cmp.le]
-          · rintro ⟨x, hx, _, hs, he⟩
+          · rintro ⟨x, hx, hs, he⟩
             have hs' : Cmp.le (cmpStart (some t) false) (pt x) = true := hs
             have he' : Cmp.le (pt x) (cmpEnd (some t) false) = true := he
             simp only [cmpStart, cmpEnd, pt, Cmp.le, Bnd.lt, Bool.false_eq_true, ↓reduceIte,
@@ -256,6 +285,6 @@ theorem rngNormalize_sat (env : Env) (r : Rng) (d : Doc) (hp : d.Plain) :
               Bnd.val.injEq] at hs' he'
             have : x = t := by grind
             rw [← this]; exact hx
-    · simp [sat]
+    · simp [sat, Rng.toQ]
 
 end WM.Normalize
